@@ -1356,3 +1356,169 @@ func sliceStorageOrigin(v ssa.Value, stack []*ssa.Call, depth int, seen map[ssa.
 	}
 	return ""
 }
+
+// ruleChangeApplied (C01-APPLY): a change notification for an open document is always applied.  The store of the
+// new text into the document store is control dependent only on the notification and on the document store
+// itself (is the document open, is the stored value a text) - never on other state the server keeps (a record of
+// version numbers, a "recently seen" set, a flag): such a gate outlives the situation it was written for
+// (a document that is closed and opened again restarts its version numbers) and silently drops edits.
+func ruleChangeApplied(c *Ctx) {
+	h, _, store, docField := changeHandler(c.P)
+	if h == nil || store == nil {
+		c.undecided("C01-APPLY", "server", "change handler", token.NoPos, "the handler that folds content changes into the document store was not found")
+		return
+	}
+	cg := cgView{c}
+	bad := ""
+	// conditions of the store and of the call sites between it and the handler
+	blks := []*ssa.BasicBlock{store.Block()}
+	for f, depth := store.Parent(), 0; f != h && depth < 3; depth++ {
+		sites := cg.callersOf(f)
+		if len(sites) != 1 {
+			break
+		}
+		blks = append(blks, sites[0].Block())
+		f = sites[0].Parent()
+	}
+	for _, b := range blks {
+		for _, cc := range controlDeps(b) {
+			sl := map[ssa.Value]bool{}
+			sliceWithControl(cc.Cond, 0, sl)
+			for v := range sl {
+				fa, ok := v.(*ssa.FieldAddr)
+				if !ok || !typeHasSuffix(fa.X.Type().Underlying().(*types.Pointer).Elem(), "server.Server") {
+					continue
+				}
+				if fk := fieldKey(fa.X.Type(), fa.Field); fk != docField {
+					bad = fk + " (condition at " + c.P.pos(cc.Cond.Pos()) + ")"
+				}
+			}
+		}
+	}
+	c.check(bad == "", "C01-APPLY", funcName(h), "a change to an open document is applied whatever else the server remembers", store.Pos(),
+		"the store of the new text depends on the notification and the document store only",
+		"whether a change notification is applied depends on server state other than the document store: "+bad+" - a gate on remembered versions or flags outlives the document's lifetime (close / re-open) and silently drops edits, so the server's text falls behind the client's")
+	c.census("C01-APPLY", "stores of a changed text into the document store", 1, 1)
+}
+
+// ruleDiagnosticsOnlyGrow (B-ALL): every diagnostic the per-transaction checks produce reaches the analysis
+// result: the Diagnostics list of an AnalysisResult is only ever extended (`append(result.Diagnostics, ...)`) or
+// initialised - never replaced by a function of itself (a de-duplication, a filter, a cap).  Identical messages on
+// different transactions are different findings.
+func ruleDiagnosticsOnlyGrow(c *Ctx) {
+	apk := c.P.SSAPkg("internal/analyzer")
+	n := 0
+	for _, f := range c.P.ModuleFuncs() {
+		top := f
+		for top.Parent() != nil {
+			top = top.Parent()
+		}
+		if top.Pkg != apk {
+			continue
+		}
+		for _, b := range f.Blocks {
+			for _, ins := range b.Instrs {
+				st, ok := ins.(*ssa.Store)
+				if !ok {
+					continue
+				}
+				fa, ok := st.Addr.(*ssa.FieldAddr)
+				if !ok || !typeHasSuffix(fa.X.Type().Underlying().(*types.Pointer).Elem(), "analyzer.AnalysisResult") || fieldVarOfAddr(fa).Name() != "Diagnostics" {
+					continue
+				}
+				n++
+				// accepted: the field's current value extended by appends (directly, through locals, or through helpers
+				// that only append to the list they are handed), or a fresh list
+				okStore := growsOnly(st.Val, fieldVarOfAddr(fa), nil, 0, map[ssa.Value]bool{})
+				c.check(okStore, "B-ALL", funcName(f), "the result's diagnostics are only extended", st.Pos(),
+					"the list is extended in place (append to its current value) or initialised",
+					"the diagnostics of the analysis result are replaced by a function of themselves (a filter, a de-duplication, a cap): findings of later transactions that look like earlier ones (the same residual, 'multiple postings without amounts') are dropped and an unbalanced transaction is published as clean")
+			}
+		}
+	}
+	c.census("B-ALL", "stores into AnalysisResult.Diagnostics", n, 2)
+}
+
+// growsOnly: the slice value is the current value of field fv, or a fresh list, extended only by appends - no
+// re-slicing, no call that builds the list in another way.
+func growsOnly(v ssa.Value, fv *types.Var, stack []*ssa.Call, depth int, seen map[ssa.Value]bool) bool {
+	if v == nil || depth > 4 {
+		return false
+	}
+	if seen[v] {
+		return true
+	}
+	seen[v] = true
+	switch x := v.(type) {
+	case *ssa.Const:
+		return x.IsNil()
+	case *ssa.MakeSlice:
+		return true
+	case *ssa.Slice:
+		if al, fresh := x.X.(*ssa.Alloc); fresh {
+			_, isArr := al.Type().Underlying().(*types.Pointer).Elem().Underlying().(*types.Array)
+			return isArr // a literal
+		}
+		return false // a re-slice drops or hides elements
+	case *ssa.Phi:
+		for _, e := range x.Edges {
+			if !growsOnly(e, fv, stack, depth, seen) {
+				return false
+			}
+		}
+		return true
+	case *ssa.ChangeType:
+		return growsOnly(x.X, fv, stack, depth, seen)
+	case *ssa.Parameter:
+		if n := len(stack); n > 0 {
+			call := stack[n-1]
+			if cal := call.Call.StaticCallee(); cal != nil {
+				for i, p := range cal.Params {
+					if p == x && i < len(call.Call.Args) {
+						return growsOnly(call.Call.Args[i], fv, stack[:n-1], depth+1, seen)
+					}
+				}
+			}
+		}
+		return false
+	case *ssa.UnOp:
+		if x.Op != token.MUL {
+			return false
+		}
+		switch a := x.X.(type) {
+		case *ssa.FieldAddr:
+			return fieldVarOfAddr(a) == fv
+		case *ssa.Alloc:
+			n := 0
+			for _, r := range *a.Referrers() {
+				if st, ok := r.(*ssa.Store); ok && st.Addr == ssa.Value(a) {
+					n++
+					if !growsOnly(st.Val, fv, stack, depth, seen) {
+						return false
+					}
+				}
+			}
+			return n > 0
+		}
+		return false
+	case *ssa.Call:
+		if bi, ok := x.Call.Value.(*ssa.Builtin); ok {
+			return bi.Name() == "append" && len(x.Call.Args) > 0 && growsOnly(x.Call.Args[0], fv, stack, depth, seen)
+		}
+		cal := x.Call.StaticCallee()
+		if cal == nil || !inModule(cal) || cal.Blocks == nil || cal.Signature.Results().Len() != 1 {
+			return false
+		}
+		n := 0
+		for _, b := range cal.Blocks {
+			if r, ok := b.Instrs[len(b.Instrs)-1].(*ssa.Return); ok {
+				n++
+				if !growsOnly(unspillResult(r.Results[0], b), fv, append(append([]*ssa.Call{}, stack...), x), depth+1, seen) {
+					return false
+				}
+			}
+		}
+		return n > 0
+	}
+	return false
+}
